@@ -375,6 +375,27 @@ class EngineBase:
             return [Res(st, SV(vint(-e.operand.value), TINT))]
         raise Untranslatable("unary op")
 
+    def ev_BinOp(self, e, st):
+        """integer + - * on ints (mathematical integers); on strings `+` and `*` give opaque strings (uninterpreted functions of the operands)"""
+        out = []
+        for (s, vals, exc) in self.eval_many([e.left, e.right], st):
+            if exc is not None:
+                out.append(Res(s, None, exc))
+                continue
+            a, b = vals
+            ka, kb = strip_opt(a.ty).kind, strip_opt(b.ty).kind
+            op = type(e.op)
+            if ka in ("int", "bool") and kb in ("int", "bool") and op in (ast.Add, ast.Sub, ast.Mult):
+                iv = lambda v: Val.i(v.t) if v.ty.kind == "int" else z3.If(Val.b(v.t), 1, 0)
+                x, y = iv(a), iv(b)
+                out.append(Res(s, SV(vint({ast.Add: x + y, ast.Sub: x - y, ast.Mult: x * y}[op]), TINT)))
+            elif "str" in (ka, kb) and op in (ast.Add, ast.Mult, ast.Mod) and ka in ("str", "int", "any", "tuple", "pair") and kb in ("str", "int", "any", "tuple", "pair"):
+                f = z3.Function("str_binop_" + op.__name__, Val, Val, I)
+                out.append(Res(s, self.typed(s, Val.str(f(a.t, b.t)), TSTR)))
+            else:
+                raise Untranslatable(f"binary operator {op.__name__} on {a.ty} and {b.ty}")
+        return out
+
     def ev_BoolOp(self, e, st):
         is_and = isinstance(e.op, ast.And)
 
